@@ -584,6 +584,8 @@ class Exec(Ops):
 
   def e_Dict(self, n, env):
     hint = self.type_hint(n)
+    if hint is None and not n.keys:
+      return PyTuple(())  # `{}` of unknown sort: only ever handed to a summary (e.g. type(name, bases, {}))
     if hint is None:
       raise OutsideSubset(f'dict literal without a sort hint (line {n.lineno})')
     if getattr(hint, 'from_dict_literal', None):
